@@ -291,4 +291,7 @@ def check(ctx, rep):
 
     rule_nodetype(ctx, rep)
     rule_import_removal_owner(ctx, rep)
+    from .c02 import rule_global_removal_scope
+
+    rule_global_removal_scope(ctx, rep)
     rep.not_covered += ["observational equivalence over programs and runtime values", "SQL parameterisation returning the same rows", "tuple-valued names producing nested tuples in combine_args"]
